@@ -62,6 +62,9 @@ func CheckTruth(vals ...string) bool {
 	return false
 }
 
+// ToStringKey builds a map key from the given values. The key is injective: different
+// value tuples never share a key (string parts are escaped, so that neither the "_"
+// separator nor the text "nil" inside a value can be mistaken for structure)
 func ToStringKey(values ...interface{}) string {
 	results := make([]string, len(values))
 
@@ -72,21 +75,40 @@ func ToStringKey(values ...interface{}) string {
 
 		switch v := value.(type) {
 		case string:
-			results[idx] = v
+			results[idx] = escapeKeyPart(v)
 		case []byte:
-			results[idx] = string(v)
+			results[idx] = escapeKeyPart(string(v))
 		case uint:
 			results[idx] = strconv.FormatUint(uint64(v), 10)
 		default:
 			results[idx] = "nil"
 			vv := reflect.ValueOf(v)
-			if vv.IsValid() && !vv.IsZero() {
-				results[idx] = fmt.Sprint(reflect.Indirect(vv).Interface())
+			for vv.IsValid() && vv.Kind() == reflect.Ptr && !vv.IsNil() {
+				vv = vv.Elem()
+			}
+			if vv.IsValid() && !(vv.Kind() == reflect.Ptr && vv.IsNil()) {
+				if vv.Kind() == reflect.String {
+					results[idx] = escapeKeyPart(vv.String())
+				} else {
+					results[idx] = fmt.Sprint(vv.Interface())
+				}
 			}
 		}
 	}
 
 	return strings.Join(results, "_")
+}
+
+// escapeKeyPart escapes the key separator and the text used for NULL in a string value
+func escapeKeyPart(s string) string {
+	if s == "nil" {
+		return `\nil`
+	}
+	if strings.ContainsAny(s, `_\`) {
+		s = strings.ReplaceAll(s, `\`, `\\`)
+		s = strings.ReplaceAll(s, "_", `\_`)
+	}
+	return s
 }
 
 func Contains(elems []string, elem string) bool {
